@@ -6,6 +6,7 @@ import LalModel.Props.C13
 #print axioms Lal.Props.C13.unpack_total
 #print axioms Lal.Props.C13.insession_total
 #print axioms Lal.Props.C13.rtsp_session_total
+#print axioms Lal.Props.C13.rtsp_msg_total
 #print axioms Lal.Props.C13.ws_total
 #print axioms Lal.Props.C13.ws_bounded
 #print axioms Lal.Props.C13.ps_body_total
